@@ -487,4 +487,7 @@ def run(ctx: Ctx, repo: Repo, tier: str) -> None:
     # (R-C17.2, whatever was observed for the call; only __main__ is dropped, which is C17's business)
     from . import c17 as _c17
     ctx.attempt(_c17.rule_main_gate, ctx, repo)
+    # nested / sequential tracing blocks with real tracer objects: a call is logged exactly once, to the innermost block's logger
+    from .blocks_model import rule_blocks
+    ctx.attempt(rule_blocks, ctx, repo, "R-C06.7", "R-C02.10")
     ctx.settle()
